@@ -56,11 +56,21 @@ check('C05', 'E2-world',
       'DESIGN.md section 7 C05')
 
 
+check('C01', 'E2-world',
+      'Seeded search over evaluation/combination histories: expression trees over every elementary selection kind are built, combined from live '
+      'operand states, copied, inverted, many-way-or-ed and pushed through EditSubsetMode in every mode, while a read schedule evaluates whole '
+      'trees, operand sub-states and copies any number of times with and without views; at checkpoints every group mask on every dataset must '
+      'equal the numpy fold of the recipe tree over cold leaf masks. Sampling, not proof.',
+      'Leaf masks come from freshly built glue leaf states (the algebra and its history-independence are decided, not the meaning of a leaf kind); views are slice tuples.',
+      'deterministic simulation: seeded read/combination scheduler over the process-wide memo + numpy reference model of the algebra',
+      'DESIGN.md section 7 C01')
+
+
 def na(pid, reason):
     NA[pid] = dict(property_id=pid, reason=reason)
 
 PENDING = 'check under construction in this build round (see DESIGN.md section 7); not claimed until its oracle is proven sound on the unchanged tree'
-for pid in ['C01', 'C02', 'C04', 'C11', 'C12', 'C14', 'C16', 'C17', 'C18', 'C19']:
+for pid in ['C02', 'C04', 'C11', 'C12', 'C14', 'C16', 'C17', 'C18', 'C19']:
     na(pid, PENDING)
 na('C08', 'pure function of region parameters and points: no schedule, clock, fault, shared state or history for a simulator to vary (DESIGN.md section 8)')
 na('C09', 'pure translation roi -> subset state; nothing stateful or faulty involved (DESIGN.md section 8)')
